@@ -13,6 +13,10 @@ pub(crate) struct EvalContext {
 
 impl EvalContext {
     pub(crate) fn new() -> Self {
+        #[cfg(feature = "verif-hooks")]
+        if let Some(seed) = crate::verif::seed_override() {
+            return Self::with_seed(seed);
+        }
         let mut seed_bytes: [u8; 8] = Default::default();
         getrandom::getrandom(&mut seed_bytes).unwrap();
         let seed = u64::from_le_bytes(seed_bytes);
@@ -64,6 +68,8 @@ impl EvalContext {
     }
 
     pub(crate) fn reset_random_seed(&mut self) {
+        #[cfg(feature = "verif-hooks")]
+        crate::verif::log_reset();
         self.rng = RefCell::new(StdRng::seed_from_u64(self.seed));
     }
 
